@@ -190,7 +190,7 @@ class ScriptLayer(layer.Layer):
         if isinstance(event, events.Start): kind, cl, ops = "start", "-", react.get("start", "")
         elif isinstance(event, events.DataReceived):
             kind, cl = "data", env.conn_label.get(event.connection, "?")
-            try: ops = event.data.decode()
+            try: ops = event.data.decode().replace("$", str(cl))
             except Exception: ops = ""
         elif isinstance(event, events.ConnectionClosed):
             cl = env.conn_label.get(event.connection, "?"); kind = "closed"
